@@ -500,14 +500,14 @@ fn check_reply(d: &[u8], peer: Ip, local: Ip, dec: &Decision, reply: &[u8], obs:
         obs.label("reply:pointer-beyond-quoted-bytes");
     }
     obs.label(if matches!(peer, Ip::V4(_)) { "reply:to-v4-peer" } else { "reply:to-v6-peer" });
-    // informational for C14 (no error loops): a reply to a datagram that is itself an SCMP error
+    // C14 (no error loops): a datagram that carries an SCMP error message (type < 128, assigned
+    // or not) is never answered. Judged in the C14 run of this binary (part "gateway").
     if let Some(oh) = &dec.hdr {
-        if oh.next == rw::SCMP_PROTO {
-            if let Some(om) = d.get(oh.header_len()..).and_then(rw::decode_scmp) {
-                if om.is_error() {
-                    obs.label("reply:to-an-scmp-error-datagram");
-                }
-            }
+        if oh.next == rw::SCMP_PROTO && oh.payload_len >= 1 && d.get(oh.header_len()).is_some_and(|t| *t < 128) {
+            obs.label("reply:to-an-scmp-error-datagram");
+            // a datagram the gateway cannot parse as a SCION packet at all (answered with code 16,
+            // invalid common header) cannot be recognised as an SCMP error either: not claimed
+            ensure!(!as_c14() || m.code == 16, format!("scmp-reply:to-an-scmp-error-datagram:type-{}", if matches!(d[oh.header_len()], 1 | 2 | 4 | 5 | 6) { "assigned" } else { "unassigned" }), "the gateway answered a rejected datagram that carries SCMP error type {} with an SCMP error", d[oh.header_len()]);
         }
     }
     Ok(())
@@ -562,6 +562,12 @@ fn check_dgram(d: &[u8], peer: Ip, local: Ip, obs: &mut Obs) -> CheckResult {
     match &out {
         IngressOutcome::Dispatch => touch_dispatched(d, dec.hdr.as_ref())?,
         IngressOutcome::Reply(r) => check_reply(d, peer, local, &dec, r, obs)?,
+        IngressOutcome::NoReply => {
+            // only SCMP error messages are rejected silently
+            let is_err = dec.hdr.as_ref().map(|oh| oh.next == rw::SCMP_PROTO && oh.payload_len >= 1 && d.get(oh.header_len()).is_some_and(|t| *t < 128)).unwrap_or(false);
+            ensure!(is_err, "rejected-silently-though-not-an-scmp-error", "datagram rejected without an SCMP reply although it does not carry an SCMP error message");
+            obs.label("no-reply:scmp-error-datagram");
+        }
         IngressOutcome::ReplyFailed(e) => {
             // "at most one": no reply is acceptable; counted so that it is visible
             obs.label("reply:failed-to-encode");
@@ -956,6 +962,7 @@ fn post(ctx: &Ctx) {
     ] {
         ctx.require_label(l, 500);
     }
+    ctx.require_label("no-reply:scmp-error-datagram", 200);
     let open: u64 = ["v4-vs-v4-mapped", "payload-shorter-than-PayloadLen", "trailing-bytes", "std-path-odd"]
         .iter()
         .map(|w| ctx.label_count(&format!("open:{w}:dispatched")) + ctx.label_count(&format!("open:{w}:rejected")))
@@ -965,6 +972,12 @@ fn post(ctx: &Ctx) {
     if ctx.only.is_none() && ctx.label_count("open:v4-vs-v4-mapped:dispatched") + ctx.label_count("open:v4-vs-v4-mapped:rejected") < 500 {
         ctx.inconclusive("generator health: fewer than 500 (v4, v4-mapped) source/peer pairs");
     }
+}
+
+/// The same exploration serves C14's clause "no SCMP error ever triggers a reply" for the gateway:
+/// `./check C14` runs this binary as part "gateway".
+fn as_c14() -> bool {
+    std::env::var("VERIF_PART").as_deref() == Ok("gateway")
 }
 
 fn main() {
@@ -977,7 +990,7 @@ fn main() {
         Sub { name: "random", run: run_random, replay: |c, v| c.replay_case::<Case>("random", v, check_case) },
     ];
     vcore::main(
-        "C08",
+        if as_c14() { "C14" } else { "C08" },
         "cases = (datagram, tunnel peer address, gateway local address). Datagrams: packet specs (source host v4/v6/v4-mapped v6/service/unknown 4-16 bytes, path empty/standard/one-hop/unknown type, raw/UDP/SCMP payloads) encoded by the reference encoder or the SUT encoder and mutated in exactly the decision bytes (DT/DL/ST/SL byte, path type, HdrLen, PayloadLen, version, source host bytes, truncation, trailing bytes); exhaustive grids over all 256 address-type bytes x 4 path kinds x 9 peer relations and all 256 path-type bytes; every truncation point of a corpus of valid packets; random datagrams up to 9216 B. Peer: the source address, one bit off, other family from the same bytes, v4-mapped form, unrelated. Oracle: refmodel::wire::decode_header + decision procedure of the property text (dispatch iff parses, source host type IPv4/IPv6 and equal to the peer, path type 0 or 1); on rejection at most one reply which must be an SCMP ParameterProblem <= 1232 B <= send buffer, addressed to the peer, quoting the maximal prefix of the datagram, checksum verifying per RFC 1071; no panic. Non-trivial = datagram whose header parses by the reference decoder (decision reaches the address/path stage), distinct by (datagram hash, peer).",
         &[
             "either verdict is allowed (labelled open:*) for: IPv4 source vs IPv4-mapped IPv6 peer of the same address and vice versa; datagram shorter than header+PayloadLen; datagram with bytes after header+PayloadLen; standard path whose meta header is semantically inconsistent but parses by length",
